@@ -47,13 +47,13 @@ def build_harness():
     lock = os.path.join(HARNESS, "Cargo.lock")
     if not os.path.exists(lock):
         shutil.copy(os.path.join(REPO, "Cargo.lock"), lock)
-    if REPO != "/repo":
-        # development worktrees: point the path dependency at NV_REPO (never committed)
-        ct = os.path.join(HARNESS, "Cargo.toml")
-        src = open(ct).read()
-        new = re.sub(r'path = "[^"]*/numbat"', 'path = "%s/numbat"' % REPO, src)
-        if new != src:
-            open(ct, "w").write(new)
+    # the path dependency always points at the repository under test (NV_REPO for development
+    # worktrees, /repo otherwise) — also repairs a path that was committed by mistake
+    ct = os.path.join(HARNESS, "Cargo.toml")
+    src = open(ct).read()
+    new = re.sub(r'path = "[^"]*/numbat"', 'path = "%s/numbat"' % REPO, src)
+    if new != src:
+        open(ct, "w").write(new)
     rc, out = sh(["cargo", "build", "--offline", "--quiet"], cwd=HARNESS, timeout=1800)
     if rc != 0:
         raise Broken("harness/numbat build failed:\n" + out[-4000:])
